@@ -620,15 +620,10 @@ pub fn build_synth(seed: u64) -> Option<SynthArena> {
     for (k, off) in [1usize, 2, 3, 5, 6, 7].iter().enumerate() {
         put!(base + PAGE + 0x200 + 0x20 * k + off, 0x2400 + k as u32, false, 12, &mut rng);
     }
-    // last 16 bytes of the mapping: a 10-byte slot, then a 6-byte function that ends exactly where the mapping ends
-    // (a store wider than the patch, or a patch longer than the function, runs into unmapped memory)
-    put!(base + 2 * PAGE - 16, 0x2200, false, 10, &mut rng);
-    put!(base + 2 * PAGE - 6, 0x2202, false, 6, &mut rng);
-    // functions packed tighter than 16 bytes (size-optimised code, hand-written assembly): 6-byte functions at
-    // 8-byte pitch; every other one is a target, the ones in between are never named
-    for k in 0..8usize {
-        put!(base + PAGE + 0x400 + 8 * k, 0x2600 + k as u32, false, 8, &mut rng);
-    }
+    // last 16 bytes of the mapping (the properties grant the library the 16-byte entry slot, so every target has
+    // 16 mapped bytes from its entry; a function closer to the end of its mapping, or neighbours packed tighter
+    // than 16 bytes, would ask for more than they promise)
+    put!(base + 2 * PAGE - 16, 0x2200, false, 16, &mut rng);
     // first bytes of the mapping
     put!(base, 0x2201, false, 16, &mut rng);
     arena.protect_all(RX);
@@ -642,6 +637,16 @@ pub struct Pool {
     pub targets: Vec<Target>,
     /// synthetic functions that are never targets: (addr, id)
     pub neighbours: Vec<(usize, u32)>,
+}
+
+/// one generic set-up helper: ONE func! call site (short form) that names a different instantiation each time
+fn gen_site<T: Into<u64> + 'static>() -> FuncPtr {
+    injectorpp::func!(fn (gen::<T>)(T) -> i32)
+}
+
+/// one source line through which several functions are turned into FuncPtrs
+fn via_one_site(f: fn() -> i32) -> FuncPtr {
+    injectorpp::func!(f, fn() -> i32)
 }
 
 static THE_S: S = S { k: 4 };
@@ -713,11 +718,6 @@ pub fn build_pool_full(seed: u64, nosynth: bool, selfcount: bool) -> Pool {
             neighbours.push((addr, id));
             continue;
         }
-        // the tightly packed block: odd ones are never named
-        if (0x2600..0x2608).contains(&id) && id % 2 == 1 {
-            neighbours.push((addr, id));
-            continue;
-        }
         if is_bool {
             targets.push(Target {
                 name: format!("synth_bool@{:x}", addr),
@@ -756,14 +756,16 @@ pub fn build_pool_full(seed: u64, nosynth: bool, selfcount: bool) -> Pool {
     rust_t!(r0, 0x1100);
     rust_t!(r1, 0x1101);
     rust_t!(r2, 0x1102);
-    rust_t!(r3, 0x1103);
-    rust_t!(r4, 0x1104);
-    rust_t!(r5, 0x1105);
+    // r3, r4, r5 are named through ONE func! call site (a set-up helper that takes the function as a parameter):
+    // what the macro returns belongs to the function it is given each time, not to the source line
+    for (name, f, v) in [("r3", r3 as fn() -> i32, 0x1103i64), ("r4", r4 as fn() -> i32, 0x1104), ("r5", r5 as fn() -> i32, 0x1105)] {
+        targets.push(Target { name: format!("{} (via a shared func! site)", name), fam: Fam::I32, addr: f as usize, orig: v, synthetic: false, call: Box::new(move || f() as i64), mk: Box::new(move || via_one_site(f)) });
+    }
     targets.push(Target { name: "rb0".into(), fam: Fam::Bool, addr: rb0 as usize, orig: 0, synthetic: false, call: Box::new(|| rb0() as i64), mk: Box::new(|| injectorpp::func!(fn (rb0)() -> bool)) });
     targets.push(Target { name: "rb1".into(), fam: Fam::Bool, addr: rb1 as usize, orig: 1, synthetic: false, call: Box::new(|| rb1() as i64), mk: Box::new(|| injectorpp::func!(fn (rb1)() -> bool)) });
-    targets.push(Target { name: "gen<u8>".into(), fam: Fam::Gen8, addr: gen::<u8> as usize, orig: gen::<u8>(3) as i64, synthetic: false, call: Box::new(|| gen::<u8>(3) as i64), mk: Box::new(|| injectorpp::func!(gen::<u8>, fn(u8) -> i32)) });
-    targets.push(Target { name: "gen<u16>".into(), fam: Fam::Gen16, addr: gen::<u16> as usize, orig: gen::<u16>(3) as i64, synthetic: false, call: Box::new(|| gen::<u16>(3) as i64), mk: Box::new(|| injectorpp::func!(gen::<u16>, fn(u16) -> i32)) });
-    targets.push(Target { name: "gen<u32>".into(), fam: Fam::Gen32, addr: gen::<u32> as usize, orig: gen::<u32>(3) as i64, synthetic: false, call: Box::new(|| gen::<u32>(3) as i64), mk: Box::new(|| injectorpp::func!(gen::<u32>, fn(u32) -> i32)) });
+    targets.push(Target { name: "gen<u8>".into(), fam: Fam::Gen8, addr: gen::<u8> as usize, orig: gen::<u8>(3) as i64, synthetic: false, call: Box::new(|| gen::<u8>(3) as i64), mk: Box::new(gen_site::<u8>) });
+    targets.push(Target { name: "gen<u16>".into(), fam: Fam::Gen16, addr: gen::<u16> as usize, orig: gen::<u16>(3) as i64, synthetic: false, call: Box::new(|| gen::<u16>(3) as i64), mk: Box::new(gen_site::<u16>) });
+    targets.push(Target { name: "gen<u32>".into(), fam: Fam::Gen32, addr: gen::<u32> as usize, orig: gen::<u32>(3) as i64, synthetic: false, call: Box::new(|| gen::<u32>(3) as i64), mk: Box::new(gen_site::<u32>) });
     targets.push(Target { name: "S::m".into(), fam: Fam::Method, addr: S::m as usize, orig: 45, synthetic: false, call: Box::new(|| THE_S.m(5) as i64), mk: Box::new(|| injectorpp::func!(fn (S::m)(&S, i32) -> i32)) });
     targets.push(Target {
         name: "libc::abs".into(),
